@@ -466,72 +466,82 @@ impl<T> DataReaderEntity<T> {
             return Ok(AddChangeResult::NotAdded);
         }
 
-        let is_max_samples_limit_reached = {
-            let total_samples = self
-                .sample_list
-                .iter()
-                .filter(|cc| cc.kind == ChangeKind::Alive)
-                .count();
-
-            total_samples == self.qos.resource_limits.max_samples
-        };
-        let is_max_instances_limit_reached = {
-            let mut instance_handle_list = Vec::new();
-            for sample_handle in self.sample_list.iter().map(|x| x.instance_handle) {
-                if !instance_handle_list.contains(&sample_handle) {
-                    instance_handle_list.push(sample_handle);
+        // History depth and resource limits apply to data samples only
+        if matches!(sample.kind, ChangeKind::Alive | ChangeKind::AliveFiltered) {
+            // With KEEP_LAST the oldest sample of the instance makes room for the new one, so that
+            // the history depth alone never causes a rejection
+            if let HistoryQosPolicyKind::KeepLast(depth) = self.qos.history.kind {
+                let num_alive_samples_of_instance = self
+                    .sample_list
+                    .iter()
+                    .filter(|cc| {
+                        cc.instance_handle == sample.instance_handle
+                            && cc.kind == ChangeKind::Alive
+                    })
+                    .count() as u32;
+                if depth == num_alive_samples_of_instance {
+                    let index_sample_to_remove = self
+                        .sample_list
+                        .iter()
+                        .position(|cc| {
+                            cc.instance_handle == sample.instance_handle
+                                && cc.kind == ChangeKind::Alive
+                        })
+                        .expect("Samples must exist");
+                    self.sample_list.remove(index_sample_to_remove);
                 }
             }
 
-            if instance_handle_list.contains(&sample.instance_handle) {
-                false
-            } else {
-                instance_handle_list.len() == self.qos.resource_limits.max_instances
-            }
-        };
-        let is_max_samples_per_instance_limit_reached = {
-            let total_samples_of_instance = self
-                .sample_list
-                .iter()
-                .filter(|cc| cc.instance_handle == sample.instance_handle)
-                .count();
-
-            total_samples_of_instance == self.qos.resource_limits.max_samples_per_instance
-        };
-        if is_max_samples_limit_reached {
-            return Ok(AddChangeResult::Rejected(
-                sample.instance_handle,
-                SampleRejectedStatusKind::RejectedBySamplesLimit,
-            ));
-        } else if is_max_instances_limit_reached {
-            return Ok(AddChangeResult::Rejected(
-                sample.instance_handle,
-                SampleRejectedStatusKind::RejectedByInstancesLimit,
-            ));
-        } else if is_max_samples_per_instance_limit_reached {
-            return Ok(AddChangeResult::Rejected(
-                sample.instance_handle,
-                SampleRejectedStatusKind::RejectedBySamplesPerInstanceLimit,
-            ));
-        }
-        let num_alive_samples_of_instance = self
-            .sample_list
-            .iter()
-            .filter(|cc| {
-                cc.instance_handle == sample.instance_handle && cc.kind == ChangeKind::Alive
-            })
-            .count() as u32;
-
-        if let HistoryQosPolicyKind::KeepLast(depth) = self.qos.history.kind {
-            if depth == num_alive_samples_of_instance {
-                let index_sample_to_remove = self
+            let is_max_samples_limit_reached = {
+                let total_samples = self
                     .sample_list
                     .iter()
-                    .position(|cc| {
-                        cc.instance_handle == sample.instance_handle && cc.kind == ChangeKind::Alive
+                    .filter(|cc| cc.kind == ChangeKind::Alive)
+                    .count();
+
+                total_samples == self.qos.resource_limits.max_samples
+            };
+            let is_max_instances_limit_reached = {
+                let mut instance_handle_list = Vec::new();
+                for sample_handle in self.sample_list.iter().map(|x| x.instance_handle) {
+                    if !instance_handle_list.contains(&sample_handle) {
+                        instance_handle_list.push(sample_handle);
+                    }
+                }
+
+                if instance_handle_list.contains(&sample.instance_handle) {
+                    false
+                } else {
+                    instance_handle_list.len() == self.qos.resource_limits.max_instances
+                }
+            };
+            let is_max_samples_per_instance_limit_reached = {
+                let total_samples_of_instance = self
+                    .sample_list
+                    .iter()
+                    .filter(|cc| {
+                        cc.instance_handle == sample.instance_handle
+                            && cc.kind == ChangeKind::Alive
                     })
-                    .expect("Samples must exist");
-                self.sample_list.remove(index_sample_to_remove);
+                    .count();
+
+                total_samples_of_instance == self.qos.resource_limits.max_samples_per_instance
+            };
+            if is_max_samples_limit_reached {
+                return Ok(AddChangeResult::Rejected(
+                    sample.instance_handle,
+                    SampleRejectedStatusKind::RejectedBySamplesLimit,
+                ));
+            } else if is_max_instances_limit_reached {
+                return Ok(AddChangeResult::Rejected(
+                    sample.instance_handle,
+                    SampleRejectedStatusKind::RejectedByInstancesLimit,
+                ));
+            } else if is_max_samples_per_instance_limit_reached {
+                return Ok(AddChangeResult::Rejected(
+                    sample.instance_handle,
+                    SampleRejectedStatusKind::RejectedBySamplesPerInstanceLimit,
+                ));
             }
         }
 
